@@ -223,7 +223,7 @@ theorem source_decision_logic : CV.Facts.logicC18 = [
   "internal..getElemValueAndType: { rv := reflect.ValueOf(v) rt := reflect.TypeOf(v) for rt.Kind() == reflect.Ptr && !rv.IsNil() { rt = rt.Elem() rv = rv.Elem() } return rv, rt }", 
   "internal..isEmptyValue: { switch v.Kind() { case reflect.Array, reflect.Map, reflect.Slice, reflect.String: return v.Len() == 0 case reflect.Bool: return !v.Bool() case reflect.Int, reflect.Int8, reflect.Int16, reflect.Int32, reflect.Int64: return v.Int() == 0 case reflect.Uint, reflect.Uint8, reflect.Uint16, reflect.Uint32, reflect.Uint64, reflect.Uintptr: return v.Uint() == 0 case reflect.Float32, reflect.Float64: return v.Float() == 0 case reflect.Interface, reflect.Ptr: return v.IsNil() } return false }", 
   "internal..normalizeMap: { if mapValue.Type().Key().Kind() != reflect.String { return nil, fmt.Errorf(\"map key type must be a string\") } m := make(map[string]interface{}) for _, key := range mapValue.MapKeys() { value := mapValue.MapIndex(key) normalized, err := Normalize(value.Interface()) if err != nil { return nil, err } m[key.String()] = normalized } return m, nil }", 
-  "internal..normalizeSlice: { if sliceValue.Type().Elem().Kind() == reflect.Uint8 { return sliceValue.Interface(), nil } s := make([]interface{}, 0) for i := 0; i < sliceValue.Len(); i++ { v, err := Normalize(sliceValue.Index(i).Interface()) if err != nil { return nil, err } s = append(s, v) } return s, nil }", 
+  "internal..normalizeSlice: { if sliceValue.Kind() == reflect.Slice && sliceValue.Type().Elem().Kind() == reflect.Uint8 { return sliceValue.Bytes(), nil } s := make([]interface{}, 0) for i := 0; i < sliceValue.Len(); i++ { v, err := Normalize(sliceValue.Index(i).Interface()) if err != nil { return nil, err } s = append(s, v) } return s, nil }", 
   "internal..normalizeStruct: { m := make(map[string]interface{}) for i := 0; i < structValue.NumField(); i++ { fieldType := structValue.Type().Field(i) fieldValue := structValue.Field(i) if fieldType.PkgPath == \"\" { fieldName := fieldType.Name cloverTag := fieldType.Tag.Get(\"clover\") name, omitempty := processStructTag(cloverTag) if name != \"\" { fieldName = name } if !omitempty || !isEmptyValue(fieldValue) { normalized, err := Normalize(structValue.Field(i).Interface()) if err != nil { return nil, err } if !fieldType.Anonymous { m[fieldName] = normalized } else { if normalizedMap, ok := normalized.(map[string]interface{}); ok { for k, v := range normalizedMap { m[k] = v } } else { m[fieldName] = normalized } } } } } return m, nil }", 
   "internal..processStructTag: { tags := strings.Split(tagStr, \",\") name := tags[0] omitempty := len(tags) > 1 && tags[1] == \"omitempty\" return name, omitempty }", 
   "internal..rename: { rv := reflect.ValueOf(v) if rv.Type().Kind() != reflect.Struct { return nil } renameMap := createRenameMap(rv) m := make(map[string]interface{}) for key, value := range fields { renamedFieldName := renameMap[key] if renamedFieldName != \"\" { m[renamedFieldName] = value } else { m[key] = value } } return m }", 
